@@ -331,3 +331,19 @@ func RunNative(f func()) (outcome string) {
 	f()
 	return "ok"
 }
+
+// ---------------------------------------------------------------- observations (translator validation)
+
+var Observed = map[string]string{}
+
+func ObserveInt64(tag string, v int64)     { Observed[tag] = strconv.FormatInt(v, 10) }
+func ObserveUint64(tag string, v uint64)   { Observed[tag] = strconv.FormatUint(v, 10) }
+func ObserveBool(tag string, v bool)       { Observed[tag] = strconv.FormatBool(v) }
+func ObserveInt(tag string, v sdkmath.Int) { Observed[tag] = v.String() }
+func ObserveDec(tag string, v sdk.Dec)     { Observed[tag] = v.BigInt().String() }
+func ObserveBig(tag string, v *big.Int)    { Observed[tag] = v.String() }
+func ObserveCoins(tag string, v sdk.Coins) {
+	for _, c := range v {
+		Observed[tag+"."+c.Denom] = c.Amount.String()
+	}
+}
